@@ -232,3 +232,20 @@ def const_str(t):
 
 def str_consts(t):
     return {x[1] for x in T.walk(t) if x[0] == 'c' and isinstance(x[1], str)}
+
+
+def spec_env(repo, code, env=None, module='cooler.util'):
+    """Run a block of simple statements (assignments) through the evaluator and
+    return the resulting environment (name -> term)."""
+    import textwrap
+    env = dict(env or {})
+    tree = ast.parse(textwrap.dedent(code))
+    for n in ast.walk(tree):
+        if isinstance(n, ast.Name) and n.id.startswith('Q_') and n.id not in env:
+            env[n.id] = V(n.id)
+    se = _SpecEval(repo, module, env)
+    se._locals = set()
+    se._block(tree.body)
+    out = {k: v for k, v in se.env.items() if isinstance(k, str)}
+    out['$events'] = se.events
+    return out
